@@ -265,9 +265,9 @@ func (i *insertOnUpdateExecutor) buildBeforeImageSQLParameters(insertStmt *ast.I
 				parameterMap[columnName] = append(parameterMap[col], objects)
 				placeHolderIndex++
 			} else {
+				// positional: the driver rejects named parameters
 				parameterMap[columnName] = append(parameterMap[col], driver.NamedValue{
 					Ordinal: i + 1,
-					Name:    columnName,
 					Value:   val,
 				})
 			}
@@ -339,7 +339,6 @@ func (i *insertOnUpdateExecutor) buildAfterImageSQL(beforeImage *types.RecordIma
 			if !i.beforeImageSqlPrimaryKeys[name] {
 				wherePrimaryList = append(wherePrimaryList, name+" = ? ")
 				primaryValues = append(primaryValues, driver.NamedValue{
-					Name:  name,
 					Value: value[j],
 				})
 			}
